@@ -4397,6 +4397,8 @@ class OnepointMacro(Macro):
 
     def eval(self, args, prevs):
         goal, ctx = args
+        if not goal.is_equals():
+            raise VeriTException("onepoint", "goal should be an equality")
         check_onepoint(goal, ctx)
         return Thm(goal)
 
